@@ -7,7 +7,7 @@ TRAP_CODES = {"unreachable": 1, "div": 2, "oob": 3, "indirect": 4, "exhaust": 5}
 
 def trap_code(t):
     if t in TRAP_CODES: return TRAP_CODES[t]
-    if t.startswith("exit:"): return 7
+    if t.startswith("exit:"): return 7 + 100 * int(t[5:])
     if t.startswith("panic"): return 6
     return 0
 
@@ -16,6 +16,7 @@ def zl(xs): return "[" + "; ".join(str(int(x)) for x in xs) + "]"
 
 
 def coq_obs(o):
+    if o.get("any"): return "OAny"
     if o.get("trap"): return "OTrap %d" % trap_code(o["trap"])
     return "ORes " + zl(o.get("res") or [])
 
